@@ -785,6 +785,20 @@ class Interp:
             v = self.fresh("v")
             bind(target, I(P.s(v)))
             return ("for", v, lo, hi, binds)
+        if fn == "enumerate" and it.args and isinstance(it.args[0], ast.Call) and astq.callee_name(self.prog, self.fi, it.args[0]) == "zip" \
+                and isinstance(target, (ast.Tuple, ast.List)) and len(target.elts) == 2:
+            # enumerate(zip(a, b)): the zip as usual, plus the position
+            inner = self.iter_domain(it.args[0], env, target.elts[1])
+            if inner is None or inner[0] != "for":
+                return None
+            st = astq.kwarg(it, "start", 1)
+            start = self.topoly(self.ev(st, env)) if st is not None else P.c(0)
+            if start is None:
+                return None
+            b2 = dict(inner[4])
+            if isinstance(target.elts[0], ast.Name):
+                b2[target.elts[0].id] = I(P.s(inner[1]) - inner[2] + start)
+            return ("for", inner[1], inner[2], inner[3], b2)
         if fn in ("enumerate", "zip"):
             args = [self.ev(x, env) for x in it.args]
             start = P.c(0)
@@ -1649,10 +1663,16 @@ class Interp:
                 return Sq(("cat", tuple(self.leaf(x) for x in a.items)))
         if fn in ("sorted", "numpy.sort", "numpy.unique") and args:
             a = args[0]
-            if isinstance(a, RefL):
-                return RefL(("sorted", a.dom))
-            if isinstance(a, Sq):
-                return Sq(("sorted", a.t))
+            r_ = RefL(("sorted", a.dom)) if isinstance(a, RefL) else (Sq(("sorted", a.t)) if isinstance(a, Sq) else None)
+            if r_ is not None:
+                # np.unique(x, return_counts=True / return_index=True ..) hands back a tuple whose first element is the sorted list
+                extra = [k_ for k_ in ("return_index", "return_inverse", "return_counts") if isinstance(kw.get(k_), K) and kw.get(k_).v is True] if fn == "numpy.unique" else []
+                return Tup([r_] + [E(e) for _ in extra]) if extra else r_
+        if fn == "numpy.where" and len(args) == 3 and isinstance(args[2], (RefL, Sq, Vec)) and isinstance(e.args[0], ast.Compare) and len(e.args[0].ops) == 1 \
+                and isinstance(e.args[0].ops[0], ast.Lt) and isinstance(e.args[0].comparators[0], ast.Constant) and e.args[0].comparators[0].value == 0 \
+                and astq.dump(e.args[0].left) == astq.dump(e.args[2]) and isinstance(e.args[1], ast.BinOp) and isinstance(e.args[1].op, ast.Add) \
+                and astq.dump(e.args[1].left) == astq.dump(e.args[2]):
+            return args[2]          # np.where(idx < 0, idx + n, idx): the same channels, negative numbers counted from the end
         if fn == "reversed" and args and isinstance(args[0], Sq):
             return Sq(("rev", args[0].t))
         if fn in ("numpy.isin", "numpy.in1d") and len(args) >= 2:
@@ -1760,13 +1780,36 @@ class Interp:
             if ok and any(not isinstance(v, (E, I, K, Fn)) for v in bound.values()):
                 sub = type(self)(self.prog, roles={}, types={}, depth=self.depth + 1, shared=self.sh)
                 sub.loops = list(self.loops)
+                def _validator_identity():
+                    """a helper that hands back the per-setup reference lists it was given, each through order-keeping conversions only
+                    (checks, asarray, reshape(-1), wrapping of negative numbers), IS those lists as far as order goes (sa/seqsig.order_flow)"""
+                    cand = [p_ for p_, v_ in bound.items() if isinstance(v_, RefLists)]
+                    if len(cand) != 1:
+                        return None
+                    from . import seqsig
+                    rr = [x for x in ast.walk(r.node) if isinstance(x, ast.Return) and x.value is not None]
+                    if not rr:
+                        return None
+                    try:
+                        flows = {seqsig.order_flow(self.prog, r, x.value, {cand[0]}) for x in rr}
+                    except Exception:
+                        return None
+                    return bound[cand[0]] if flows == {"kept"} else None
                 try:
                     rets = sub.run(r, bound)
                 except Exception as ex:       # a construct of the helper the interpreter does not model
-                    return Sq(("opq", f"helper {r.node.name}: {type(ex).__name__}"))
-                if len(rets) == 1:
+                    vi = _validator_identity()
+                    return vi if vi is not None else Sq(("opq", f"helper {r.node.name}: {type(ex).__name__}"))
+                def opaque_val(v_):
+                    return isinstance(v_, Sq) and bool(opaque(v_.t))
+                if len(rets) == 1 and not opaque_val(rets[0][0]):
                     return rets[0][0]
-                if rets and all(_same_val(x[0], rets[0][0]) for x in rets):
+                if rets and all(_same_val(x[0], rets[0][0]) for x in rets) and not opaque_val(rets[0][0]):
+                    return rets[0][0]
+                vi = _validator_identity()
+                if vi is not None:
+                    return vi
+                if len(rets) == 1:
                     return rets[0][0]
                 return Sq(("opq", f"helper {r.node.name} has several different returns"))
             return E(e)
